@@ -111,7 +111,7 @@ func wantCond(k *model.KV, name string, v uint32, allowed bool) getOut {
 func checkC09(t *testing.T, env *report.Env, rep *report.Report) {
 	depth := 4
 	if env.Thorough() {
-		depth = 6
+		depth = 7
 	}
 	alpha := Alphabet([]string{"a", "b"}, []string{"", "x", "y"}, []uint32{1, 2, 3}, false)
 	fs := &failSet{}
